@@ -156,6 +156,7 @@ func c10BatchMain(args []string) int {
 				return 3
 			}
 			fx.resolve()
+			fx.Dir = filepath.Join(batch.FixturesDir, cs.Fixture)
 			fixtures[cs.Fixture] = fx
 			for _, name := range fx.Files {
 				fbb, err := os.ReadFile(filepath.Join(fx.Dir, name))
